@@ -89,7 +89,40 @@ def _loop_body_obligations(st, prefix, who, fn):
         ok_aff = (isinstance(aff, tuple) and aff[:1] == ("callres",) and aff[2].endswith(".compute_affinity"))
         ob("_batchify(X, affinity, rng): affinity = gemini.compute_affinity(...)", ok_aff or who == "clf",
            {"affinity": fx.show(aff)})
+        # what is cut into batches is the caller's data: validated (or kernelised against itself), never re-ordered, filtered or
+        # subsampled first -- row i of the batched array is sample i of the caller (the index bookkeeping of the
+        # must-link / cannot-link hook and labels_ rely on it) -- and the affinity is computed on that same array with the caller's y
+        ok_rows = _caller_rows(b[0]) if b else False
+        ob("the array cut into batches is the caller's data in the caller's row order (validated / kernelised only)", ok_rows, {"data": fx.show(b[0])[:200] if b else None})
+        if ok_aff:
+            ca = aff[3]
+            ok_same = len(ca) >= 1 and (ca[0] == b[0] or (_caller_rows(ca[0]) and _caller_rows(b[0]))) and (len(ca) < 2 or ca[1] in (("var", "y"), fx.C(None)))
+            ob("the affinity is computed on that same array and the caller's y", ok_same, {"args": [fx.show(x)[:120] for x in ca]})
     return obs
+
+
+_ROW_PRESERVING = ("validate_data", "check_array", "self._validate_data", "np.asarray", "np.array", "np.ascontiguousarray", "np.asfortranarray",
+                   "self._compute_kernel", "self.base_kernel", "pairwise_kernels")
+
+
+def _caller_rows(t):
+    """t denotes the caller's X, row for row: X itself, or X through validation / dtype conversion / a kernel against itself"""
+    t = fx.strip(t)
+    if t == ("var", "X"):
+        return True
+    if (isinstance(t, tuple) and t[0] == "item" and isinstance(t[2], tuple) and t[2][0] == "tuple" and len(t[2][1]) == 2
+            and t[2][1][0] == ("slice", fx.C(None), fx.C(None), fx.C(None))):
+        return _caller_rows(t[1])           # X[:, columns]: all rows, in order (the dynamic mode of the sparse path scores selected columns)
+    if isinstance(t, tuple) and t[:1] == ("callres",):
+        name, args = t[2], t[3]
+        if name.endswith(".astype") or name.endswith(".copy"):
+            return True if name.split(".")[0] == "X" else False
+        if name in _ROW_PRESERVING:
+            arr = [a for a in args if a != ("var", "self")]
+            if name in ("self.base_kernel", "pairwise_kernels", "self._compute_kernel"):
+                return bool(arr) and all(_caller_rows(a) for a in arr[:2])
+            return bool(arr) and _caller_rows(arr[0])
+    return False
 
 
 def fit_obligations(cls):
